@@ -58,7 +58,7 @@ func genC01(t *rapid.T) c01Case {
 		if loc != "L" {
 			id = strings.ToLower(loc) + id
 		}
-		kinds := []string{"addRule", "addRule", "addRule", "remRule", "addFact", "enable", "reload", "event", "event", "event", "event", "clear"}
+		kinds := []string{"addRule", "addRule", "addRule", "remRule", "addFact", "enable", "reload", "event", "event", "event", "event", "clear", "addSched"}
 		switch k := rapid.SampledFrom(kinds).Draw(t, l+".kind"); k {
 		case "addRule":
 			var w M
@@ -71,6 +71,10 @@ func genC01(t *rapid.T) c01Case {
 			c.Ops = append(c.Ops, op{K: "addRule", Loc: loc, Id: id, Doc: w})
 		case "remRule":
 			c.Ops = append(c.Ops, op{K: "remRule", Loc: loc, Id: id})
+		case "addSched":
+			// a scheduled rule (never dispatched for events) under an id
+			// that often holds an event rule
+			c.Ops = append(c.Ops, op{K: "addSched", Loc: loc, Id: id})
 		case "addFact":
 			doc := gen.Map(t, gen.Opts{}, 1, l+".fact")
 			if rapid.IntRange(0, 3).Draw(t, l+".rulish?") == 0 {
@@ -162,6 +166,15 @@ func runC01(c c01Case) *vlib.Outcome {
 					o.Label("addRule-refused")
 				} else if had {
 					changed = true
+				}
+			case "addSched":
+				if it, had := ml.Items[x.Id]; had && it.IsRule && it.Schedule == "" {
+					changed = true
+					o.Label("rule-overwritten-by-scheduled-rule")
+				}
+				rule := M{"schedule": "+1h", "action": M{"code": "'" + loc + "/" + x.Id + "'"}}
+				if r := w.addRule(loc, x.Id, rule); r.Err != nil {
+					o.Fail("ADDRULE_ERROR", "%s: adding a scheduled rule failed: %v", when, r.Err)
 				}
 			case "remRule":
 				if _, had := ml.Items[x.Id]; had {
